@@ -65,10 +65,8 @@ def instr(start, parent, child):
     if start is None:
         start = 1
     if start > len(parent):
-        if child == b'' and start == len(parent) + 1:
-            # the empty string "occurs" just behind the end as well; GW-BASIC's manual says 0
-            # whenever start > LEN(parent); the statement does not decide: accept both
-            return errs, {0, start}
+        # GW-BASIC manual (INSTR): "returns 0 if I > LEN(X$), X$ is null, Y$ cannot be found"; these come
+        # before "if Y$ is null, returns I", so also for an empty child just behind the end
         return errs, {0}
     if child == b'':
         return errs, {start}
